@@ -1,5 +1,5 @@
 ---------------------------- MODULE MC_Dangling ----------------------------
 EXTENDS Dangling, Json
-CaseJson == [kind |-> kind, carrier |-> carrier, mode |-> mode, optional |-> optional, ideal |-> Expected, mech |-> outcome]
+CaseJson == [kind |-> kind, carrier |-> carrier, mode |-> mode, optional |-> optional, nested |-> nested, ideal |-> Expected, mech |-> outcome]
 Emit == pc = "done" => PrintT(<<"CASE", ToJson(CaseJson)>>)
 =============================================================================
